@@ -101,6 +101,9 @@ func (e *Engine) Load() error {
 	}
 	// contracts
 	e.cs = NewContractSet()
+	if _, err := os.Stat(filepath.Join(e.verifDir, "contracts", "macros.ctr")); err == nil {
+		e.cs.ParseFile(filepath.Join(e.verifDir, "contracts", "macros.ctr"), "")
+	}
 	for _, p := range pkgs {
 		for _, f := range p.CompiledGoFiles {
 			if filepath.Base(f) == "zz_contracts_verif.go" {
